@@ -1,0 +1,14 @@
+//go:build verif
+
+package ledgerstore
+
+import "github.com/uptrace/bun"
+
+// NewStoreForVerif builds a Store over a caller-supplied *bun.DB (Bucket's fields are unexported), so the
+// verification harness can send the store's queries to a recording or table-serving database/sql driver.
+func NewStoreForVerif(db *bun.DB, bucket, name string) *Store {
+	return &Store{bucket: &Bucket{name: bucket, db: db}, name: name}
+}
+
+// VerifInitSchema returns the embedded bucket schema (0-init-schema.sql).
+func VerifInitSchema() string { return initSchema }
